@@ -491,6 +491,62 @@ func c05Main(args []string) int {
 			rep.Kinds = append(rep.Kinds, kr)
 		}
 	}
+	// Allegations: the request record is DELETED when the validators have decided (guilty or innocent), so after the
+	// verdict nothing of the executed ALLEGATION stays taken: what does a re-encoding of it do then?
+	if *only == "" || strings.HasPrefix(*only, "ALLEGATION_AFTER") {
+		for _, flow := range []string{"ALLEGATION_AFTER_VERDICT_INNOCENT", "ALLEGATION_AFTER_VERDICT_GUILTY"} {
+			w := NewWorld(3, 5, 2)
+			rp := NewReplica(w.Genesis(), ReplicaOpts{NodeVal: w.Vals[0].Val})
+			rp.InitChain()
+			GAS = 1000000
+			n := 0
+			memo := func() string { n++; return fmt.Sprintf("c05al%d", n) }
+			in := &BlockIn{Absent: map[int]bool{}}
+			v0, v1, v2 := w.Vals[0], w.Vals[1], w.Vals[2]
+			for i := 0; i < 5; i++ {
+				rp.RunBlock(in)
+			}
+			base := txAllegation(v0, "c05req", v1.Val.Addr, 6, memo())
+			kr := c05Kind{Kind: flow, Base: hx(base)}
+			rp.BeginBlock(in)
+			v0v := rp.View()
+			res := rp.DeliverTx(base)
+			kr.BaseCode = res.Code
+			kr.BaseEffect = len(diffKeys(v0v, rp.View())) > 0
+			rp.EndBlock()
+			rp.Commit()
+			if res.Code == 0 {
+				choice := int8(2) // no
+				if flow == "ALLEGATION_AFTER_VERDICT_GUILTY" {
+					choice = 1
+				}
+				rp.RunBlock(&BlockIn{Txs: [][]byte{txAllegationVote(v0, "c05req", choice, memo()), txAllegationVote(v2, "c05req", choice, memo()),
+					txAllegationVote(v1, "c05req", choice, memo())}, Absent: map[int]bool{}})
+				for i := 0; i < 3; i++ {
+					rp.RunBlock(in)
+				}
+				subs := append([]labMutant{{"identical", "same", base}}, reencodings(base, r)...)
+				rp.BeginBlock(in)
+				for _, sb := range subs {
+					c := rp.CheckTx(sb.Tx)
+					va := rp.View()
+					d := rp.DeliverTx(sb.Tx)
+					ch := diffKeys(va, rp.View())
+					sr := c05Sub{Name: sb.Name, SameParsed: sameParsed(sb.Tx, base), CheckCode: c.Code, CheckDup: strings.Contains(c.Log, "duplicated tx"),
+						Deliver: d.Code, Effect: len(ch) > 0, Tx: hx(sb.Tx)}
+					if len(ch) > 6 {
+						ch = ch[:6]
+					}
+					sr.Changed = ch
+					kr.Subs = append(kr.Subs, sr)
+				}
+				rp.EndBlock()
+				rp.Commit()
+			}
+			rp.Close()
+			rep.Kinds = append(rep.Kinds, kr)
+		}
+	}
 	b.WriteString("\n].\nDefinition MM := Eval vm_compute in replay_mismatches 0 cases.\nPrint MM.\n")
 	name := *outDir + "/c05_cases_0.v"
 	must(os.WriteFile(name, b.Bytes(), 0644))
